@@ -198,18 +198,22 @@ theorem inv2_step (s : St) (a : Act) (s' : St) (hi : Inv2 s) (h : step s a = som
     split at h
     · split at h
       · split at h
+        · cases h; exact ⟨h1, h2, h3⟩
+        · split at h
+          · cases h
+          · cases h
+            refine ⟨?_, ?_, ?_⟩
+            · intro p hp hnd
+              exact h1 p hp (fun hm => hnd (List.mem_append_left _ hm))
+            · intro x hx
+              simp only [List.mem_append, List.mem_singleton] at hx
+              cases hx with
+              | inl hx => exact List.mem_append_left _ (h2 x hx)
+              | inr hx => subst hx; simp
+            · intro p hp; exact List.mem_append_left _ (h3 p hp)
+      · split at h
         · cases h
-        · cases h
-          refine ⟨?_, ?_, ?_⟩
-          · intro p hp hnd
-            exact h1 p hp (fun hm => hnd (List.mem_append_left _ hm))
-          · intro x hx
-            simp only [List.mem_append, List.mem_singleton] at hx
-            cases hx with
-            | inl hx => exact List.mem_append_left _ (h2 x hx)
-            | inr hx => subst hx; simp
-          · intro p hp; exact List.mem_append_left _ (h3 p hp)
-      · cases h; exact ⟨h1, h2, h3⟩
+        · cases h; exact ⟨h1, h2, h3⟩
     · cases h
   | cancelEnd f =>
     simp only [step] at h
